@@ -191,6 +191,8 @@ func renderExpr(toks []tok, lits []dec) (string, error) {
 				st = append(st, strconv.QuoteRune(rune(t.N)))
 			case "f":
 				st = append(st, map[int]string{1: "1.0", 2: "0.5", 3: "2.5e3"}[t.N])
+			case "h":
+				st = append(st, fmt.Sprintf("0x1p%d", t.N))
 			case "s":
 				st = append(st, `"ab"`)
 			case "b":
